@@ -60,6 +60,9 @@ def _client_ops(client, ops, model, what, state):
   from ml_metrics._src.chainables import lazy_fns as lf  # pylint: disable=g-import-not-at-top
   from ml_metrics._src.utils import courier_utils, iter_utils  # pylint: disable=g-import-not-at-top
   handles = []     # (RemoteObject, model Counting)
+  arr_memo = {}
+  cid = state.setdefault('next_cid', 0)
+  state['next_cid'] = cid + 1
   hops = exc_seen = 0
   for step, op in enumerate(ops):
     w = f'{what}: step {step} {op}'
@@ -103,6 +106,17 @@ def _client_ops(client, ops, model, what, state):
       else:
         exc_seen += 1
         check(got[:3] == want, 'remote-exception-differs-from-local', f'{w}: remote {got!r}, local evaluation raises {want!r}')
+    elif k == 'eval_arr':
+      # the same traced expression object (cached call with an array argument) is evaluated remotely more than once
+      key = (tuple(op[1]), op[2])
+      if key not in arr_memo:
+        arr_memo[key] = c17.build({'k': 'call', 'fn': 'counted_arr_sum', 'args': [{'arr': list(op[1])}, {'c': op[2] + 100 * cid}], 'cache': True})
+      got = answer(lambda: client.get_result(arr_memo[key]))
+      if got[0] == 'timeout' or (got[0] == 'exc' and got[1] == 'RuntimeError' and 'disconnected' in got[2]):
+        check(state['shutdown'] or shutting, 'timeout-without-shutdown', f'{w}: {got}')
+        continue
+      want = sum(op[1]) + op[2] + 100 * cid
+      check(got == ('value', want), 'remote-value-differs-from-local', f'{w}: remote {got!r}, local evaluation gives {want!r}')
     elif k == 'remote_obj':
       base = op[1]
       got = answer(lambda: client.get_result(lf.trace(targets.make_counting)(base, lazy_result_=True)))
@@ -296,6 +310,7 @@ def strat(tier):
       op = st.one_of(
           st.tuples(st.just('eval'), expr).map(list), st.tuples(st.just('eval'), expr).map(list),
           st.tuples(st.just('remote_obj'), st.integers(0, 5)).map(list),
+          st.tuples(st.just('eval_arr'), st.sampled_from([[1, 2, 3], [4, 5]]), st.integers(0, 1)).map(list),
           st.tuples(st.just('ro_call'), st.integers(0, 3), st.integers(1, 3)).map(list),
           st.tuples(st.just('ro_attr'), st.integers(0, 3), st.sampled_from(['hits', 'base'])).map(list),
           st.tuples(st.just('ro_item'), st.integers(0, 3), st.just('k')).map(list),
